@@ -68,7 +68,7 @@ def run_one(m):
         props = m["property"] if isinstance(m["property"], list) else [m["property"]]
         detected = False
         for prop in props:
-            c = subprocess.run([os.path.join(HERE, "bin/slockcheck"), "-repo", os.path.join(d, "repo"), "-verif", os.path.join(d, "verif"), "-property", prop],
+            c = subprocess.run([os.environ.get("SLOCKCHECK_BIN", os.path.join(HERE, "bin/slockcheck")), "-repo", os.path.join(d, "repo"), "-verif", os.path.join(d, "verif"), "-property", prop],
                                env=ENV, capture_output=True, text=True)
             out = c.stdout
             outs.append(out)
